@@ -340,19 +340,33 @@ public:
 	splinetable& operator=(splinetable&& other){
 		if(&other==this)
 			return(*this);
-		using std::swap;
-		swap(ndim,other.ndim);
-		swap(order,other.order);
-		swap(knots,other.knots);
-		swap(nknots,other.nknots);
-		swap(extents,other.extents);
-		swap(periods,other.periods);
-		swap(coefficients,other.coefficients);
-		swap(naxes,other.naxes);
-		swap(strides,other.strides);
-		swap(naux,other.naux);
-		swap(aux,other.aux);
-		swap(allocator,other.allocator);
+		//give back what this table holds, then take over the other's storage
+		//and leave it empty, exactly as the move constructor does
+		release();
+		ndim=other.ndim;
+		order=std::move(other.order);
+		knots=std::move(other.knots);
+		nknots=std::move(other.nknots);
+		extents=std::move(other.extents);
+		periods=std::move(other.periods);
+		coefficients=std::move(other.coefficients);
+		naxes=std::move(other.naxes);
+		strides=std::move(other.strides);
+		naux=other.naux;
+		aux=std::move(other.aux);
+		allocator=std::move(other.allocator);
+		other.ndim=0;
+		other.order=NULL;
+		other.knots=NULL;
+		other.nknots=NULL;
+		other.extents=NULL;
+		other.periods=NULL;
+		other.coefficients=NULL;
+		other.naxes=NULL;
+		other.strides=NULL;
+		other.naux=0;
+		other.aux=NULL;
+		other.allocator=Alloc();
 		return(*this);
 	}
 	
